@@ -503,7 +503,8 @@ func seekToRangeStart(data io.Seeker, ra *ByteRange, size int64) error {
 			}
 			start = size + ra.From
 			if start < 0 {
-				return fmt.Errorf("invalid range: negative start bigger than the file size")
+				// RFC 9110 14.1.2: a suffix longer than the representation selects all of it
+				start = 0
 			}
 		} else {
 			start = ra.From
